@@ -188,7 +188,10 @@ func inductionTest(cond ssa.Value, in map[*ssa.BasicBlock]bool) (bool, string) {
 				return false
 			}
 			k, isC := core.ConstInt(b.Y)
-			if !isC || k == 0 || b.X != ssa.Value(ph) {
+			if b.X != ssa.Value(ph) {
+				return false
+			}
+			if !(isC && k != 0) && !(b.Op == token.ADD && positiveStep(b.Y, 0)) {
 				return false
 			}
 			stepOK = true
@@ -301,18 +304,24 @@ func firstPos(bs []*ssa.BasicBlock) token.Pos {
 // Parser cursor model
 
 type parserModel struct {
-	p          *core.Prog
-	T          *types.Named
-	tokT       *types.Named // token.Token
-	eof        int64
-	advance    *ssa.Function
-	fns        []*ssa.Function
-	always     map[*ssa.Function]bool
-	onOK       map[*ssa.Function]bool
-	onTrue     map[*ssa.Function]bool
-	predMemo   map[*ssa.Function]int // 1 implies-non-end, 2 not
-	paramEq    map[*ssa.Function]bool
-	nonNilMemo map[*ssa.Function]bool
+	p           *core.Prog
+	T           *types.Named
+	tokT        *types.Named // token.Token
+	eof         int64
+	advance     *ssa.Function
+	fns         []*ssa.Function
+	always      map[*ssa.Function]bool
+	onOK        map[*ssa.Function]bool
+	onTrue      map[*ssa.Function]bool
+	predMemo    map[*ssa.Function]int // 1 implies-non-end, 2 not
+	paramEq     map[*ssa.Function]bool
+	kind        string                 // "parser" or "tokenizer"
+	onSent      map[*ssa.Function]bool // tokenizer: advances whenever it returns the internal skip sentinel
+	posT        *types.Named           // tokenizer: Position
+	onOKne      map[*ssa.Function]bool // tokenizer: advances on success provided the cursor was below len(input) at entry
+	assumeEntry bool                   // while computing *ne summaries: the function entry counts as a non-end point
+	noNE        int
+	nonNilMemo  map[*ssa.Function]bool
 }
 
 func newParserModel(p *core.Prog) (*parserModel, string) {
@@ -409,7 +418,125 @@ func (m *parserModel) curTokField(v ssa.Value, depth int) string {
 	return ""
 }
 
-func (m *parserModel) isCursorLoad(v ssa.Value) bool { return loadOfField(v, m.T, "currentPos") }
+func (m *parserModel) isCursorLoad(v ssa.Value) bool {
+	if m.kind == "tokenizer" {
+		u, ok := v.(*ssa.UnOp)
+		if !ok || u.Op != token.MUL {
+			return false
+		}
+		fa, ok := u.X.(*ssa.FieldAddr)
+		return ok && core.FieldName(fa.X.Type(), fa.Field) == "Index" && m.tzField(fa.X, "pos")
+	}
+	return loadOfField(v, m.T, "currentPos")
+}
+
+// tzField: v is &x.<name> / x.<name> where x is a tokenizer-package struct with pos and input fields.
+func (m *parserModel) tzField(v ssa.Value, name string) bool {
+	if u, ok := v.(*ssa.UnOp); ok && u.Op == token.MUL {
+		v = u.X // pos held by pointer
+	}
+	var x ssa.Value
+	var idx int
+	switch f := v.(type) {
+	case *ssa.FieldAddr:
+		x, idx = f.X, f.Field
+	case *ssa.Field:
+		x, idx = f.X, f.Field
+	default:
+		return false
+	}
+	if core.FieldName(x.Type(), idx) != name {
+		return false
+	}
+	return m.tzType(core.NamedOf(x.Type()))
+}
+
+func (m *parserModel) tzType(n *types.Named) bool {
+	if n == nil {
+		return false
+	}
+	if n == m.T {
+		return true
+	}
+	if n.Obj().Pkg() != m.T.Obj().Pkg() {
+		return false
+	}
+	st, ok := n.Underlying().(*types.Struct)
+	if !ok {
+		return false
+	}
+	hasPos, hasIn := false, false
+	for i := 0; i < st.NumFields(); i++ {
+		if st.Field(i).Name() == "pos" {
+			hasPos = true
+		}
+		if st.Field(i).Name() == "input" {
+			hasIn = true
+		}
+	}
+	return hasPos && hasIn
+}
+
+func (m *parserModel) tzLoad(v ssa.Value, name string) bool {
+	u, ok := v.(*ssa.UnOp)
+	return ok && u.Op == token.MUL && m.tzField(u.X, name)
+}
+
+// tokenizer progress atom: pos.AdvanceRune(...) or pos.Index += positive.
+func (m *parserModel) tzAtom(in ssa.Instruction) bool {
+	switch x := in.(type) {
+	case *ssa.Call:
+		f := x.Call.StaticCallee()
+		if f != nil && f.Signature.Recv() != nil && core.NamedOf(f.Signature.Recv().Type()) == m.posT && f.Name() == "AdvanceRune" && len(x.Call.Args) > 0 && m.tzField(x.Call.Args[0], "pos") {
+			return true
+		}
+	case *ssa.Store:
+		fa, ok := x.Addr.(*ssa.FieldAddr)
+		if !ok || core.FieldName(fa.X.Type(), fa.Field) != "Index" || !m.tzField(fa.X, "pos") {
+			return false
+		}
+		bo, ok := x.Val.(*ssa.BinOp)
+		if !ok || bo.Op != token.ADD || !m.isCursorLoad(bo.X) {
+			return false
+		}
+		return positiveStep(bo.Y, 0)
+	}
+	return false
+}
+
+// positiveStep: a positive constant, a rune size returned by utf8.DecodeRune*, or a sum of those.
+func positiveStep(v ssa.Value, depth int) bool {
+	if depth > 4 {
+		return false
+	}
+	if k, ok := core.ConstInt(v); ok {
+		return k > 0
+	}
+	switch x := v.(type) {
+	case *ssa.Extract:
+		if c, ok := x.Tuple.(*ssa.Call); ok && x.Index == 1 {
+			if f := c.Call.StaticCallee(); f != nil && core.FnPkg(f) != nil && core.FnPkg(f).Path() == "unicode/utf8" && strings.HasPrefix(f.Name(), "DecodeRune") {
+				return true
+			}
+		}
+	case *ssa.BinOp:
+		if x.Op == token.ADD {
+			return positiveStep(x.X, depth+1) && positiveStep(x.Y, depth+1)
+		}
+	case *ssa.Call:
+		if f := x.Call.StaticCallee(); f != nil && core.FnPkg(f) != nil && core.FnPkg(f).Path() == "unicode/utf8" && f.Name() == "RuneLen" {
+			return true
+		}
+	case *ssa.Phi:
+		for _, e := range x.Edges {
+			if !positiveStep(e, depth+1) {
+				return false
+			}
+		}
+		return len(x.Edges) > 0
+	}
+	return false
+}
 
 // paramish: v is a parameter of fn, an element of a variadic parameter, or a
 // case-normalised parameter.
@@ -443,6 +570,32 @@ func paramish(v ssa.Value, depth int) bool {
 // summarising a predicate: comparisons with the predicate's own parameters count
 // (their constants are checked at the call sites).
 func (m *parserModel) classify(cond ssa.Value, inPred bool) (t, f bool) {
+	if m.kind == "tokenizer" {
+		switch x := cond.(type) {
+		case *ssa.UnOp:
+			if x.Op == token.NOT {
+				a, b := m.classify(x.X, inPred)
+				return b, a
+			}
+		case *ssa.BinOp:
+			// pos.Index < len(input)  (also with a constant offset on the left)
+			l := x.X
+			if add, ok := l.(*ssa.BinOp); ok && add.Op == token.ADD {
+				if k, isC := core.ConstInt(add.Y); isC && k >= 0 {
+					l = add.X
+				}
+			}
+			if m.isCursorLoad(l) && core.LenOf(x.Y) != nil && m.tzLoad(core.LenOf(x.Y), "input") {
+				switch x.Op {
+				case token.LSS:
+					return true, false
+				case token.GEQ:
+					return false, true
+				}
+			}
+		}
+		return false, false
+	}
 	switch x := cond.(type) {
 	case *ssa.UnOp:
 		if x.Op == token.NOT {
@@ -577,7 +730,13 @@ func argLeaves(a ssa.Value) []ssa.Value {
 }
 
 func (m *parserModel) isParserFn(fn *ssa.Function) bool {
-	return fn != nil && fn.Blocks != nil && fn.Signature.Recv() != nil && core.NamedOf(fn.Signature.Recv().Type()) == m.T
+	if fn == nil || fn.Blocks == nil || fn.Signature.Recv() == nil {
+		return false
+	}
+	if m.kind == "tokenizer" {
+		return m.tzType(core.NamedOf(fn.Signature.Recv().Type()))
+	}
+	return core.NamedOf(fn.Signature.Recv().Type()) == m.T
 }
 
 // predImplies: every way the bool-returning method can return true passes a
@@ -684,6 +843,9 @@ func (m *parserModel) predImplies(fn *ssa.Function) bool {
 
 func (m *parserModel) progressBlock(b *ssa.BasicBlock) bool {
 	for _, in := range b.Instrs {
+		if m.kind == "tokenizer" && m.tzAtom(in) {
+			return true
+		}
 		c, ok := in.(*ssa.Call)
 		if !ok {
 			continue
@@ -699,6 +861,100 @@ func (m *parserModel) progressBlock(b *ssa.BasicBlock) bool {
 	return false
 }
 
+// mayMoveCursor: the instruction is a call into the tokenizer's own methods or a progress atom.
+func (m *parserModel) mayMoveCursor(in ssa.Instruction) bool {
+	if m.tzAtom(in) {
+		return true
+	}
+	if c, ok := in.(ssa.CallInstruction); ok {
+		for _, f := range []*ssa.Function{c.Common().StaticCallee()} {
+			if f != nil && (m.isParserFn(f) || (f.Signature.Recv() != nil && core.NamedOf(f.Signature.Recv().Type()) == m.posT)) {
+				return true
+			}
+			if f != nil && f.Parent() != nil {
+				return true
+			}
+		}
+		if c.Common().StaticCallee() == nil && !c.Common().IsInvoke() {
+			if _, isB := c.Common().Value.(*ssa.Builtin); !isB {
+				return true
+			}
+		}
+	}
+	// whole-position stores (t.pos = saved)
+	if st, ok := in.(*ssa.Store); ok && m.tzField(st.Addr, "pos") {
+		return true
+	}
+	return false
+}
+
+// siteNonEnd: on every path leading to call, the last event that concerns the
+// cursor is a test establishing pos < len(input) (or, while summarising under
+// the entry assumption, the function entry itself).
+func (m *parserModel) siteNonEnd(call *ssa.Call) bool {
+	seen := map[*ssa.BasicBlock]bool{}
+	var back func(b *ssa.BasicBlock, upto int) bool
+	back = func(b *ssa.BasicBlock, upto int) bool {
+		for i := upto - 1; i >= 0; i-- {
+			if m.mayMoveCursor(b.Instrs[i]) {
+				return false
+			}
+		}
+		if b.Index == 0 {
+			return m.assumeEntry
+		}
+		if len(b.Preds) == 0 {
+			return false
+		}
+		for _, p := range b.Preds {
+			// is the edge p->b a non-end edge?
+			ne := false
+			if iff, ok := p.Instrs[len(p.Instrs)-1].(*ssa.If); ok && len(p.Succs) == 2 {
+				t, f := m.classify(iff.Cond, false)
+				if (p.Succs[0] == b && t && p.Succs[1] != b) || (p.Succs[1] == b && f && p.Succs[0] != b) {
+					ne = true
+				}
+			}
+			if ne {
+				continue
+			}
+			// a path that has already consumed input needs no credit from this call
+			k := 0
+			if len(p.Succs) == 2 && p.Succs[1] == b && p.Succs[0] != b {
+				k = 1
+			}
+			if m.progressBlock(p) || (len(p.Succs) == 2 && m.progressEdgeNoNE(p, k)) {
+				continue
+			}
+			if seen[p] {
+				return false
+			}
+			seen[p] = true
+			if !back(p, len(p.Instrs)) {
+				return false
+			}
+		}
+		return true
+	}
+	b := call.Block()
+	idx := 0
+	for i, in := range b.Instrs {
+		if in == ssa.Instruction(call) {
+			idx = i
+		}
+	}
+	return back(b, idx)
+}
+
+func isGlobalLoad(v ssa.Value) bool {
+	u, ok := v.(*ssa.UnOp)
+	if !ok || u.Op != token.MUL {
+		return false
+	}
+	_, isG := u.X.(*ssa.Global)
+	return isG
+}
+
 func stripNot(v ssa.Value) (ssa.Value, bool) {
 	neg := false
 	for {
@@ -709,6 +965,14 @@ func stripNot(v ssa.Value) (ssa.Value, bool) {
 		v = u.X
 		neg = !neg
 	}
+}
+
+// progressEdgeNoNE is progressEdge restricted to unconditional summaries (used
+// inside siteNonEnd, which itself serves the conditional ones).
+func (m *parserModel) progressEdgeNoNE(b *ssa.BasicBlock, k int) bool {
+	m.noNE++
+	defer func() { m.noNE-- }()
+	return m.progressEdge(b, k)
 }
 
 func (m *parserModel) progressEdge(b *ssa.BasicBlock, k int) bool {
@@ -748,12 +1012,36 @@ func (m *parserModel) progressEdge(b *ssa.BasicBlock, k int) bool {
 				call = ev
 			}
 			if call != nil {
-				if f := call.Call.StaticCallee(); f != nil && m.onOK[f] {
+				if f := call.Call.StaticCallee(); f != nil && (m.onOK[f] || (m.noNE == 0 && ((m.onOKne[f] && m.siteNonEnd(call)) || m.auditedSite(f, call)))) {
 					if x.Op == token.NEQ {
 						return !onTrue
 					}
 					if x.Op == token.EQL {
 						return onTrue
+					}
+				}
+			}
+		}
+		// err == <internal sentinel> after a callee that advances whenever it returns the sentinel
+		if m.kind == "tokenizer" && (x.Op == token.EQL || x.Op == token.NEQ) {
+			e, sv := x.X, x.Y
+			if isGlobalLoad(e) {
+				e, sv = sv, e
+			}
+			if isGlobalLoad(sv) && isErrorType(e.Type()) {
+				var call *ssa.Call
+				switch ev := e.(type) {
+				case *ssa.Extract:
+					call, _ = ev.Tuple.(*ssa.Call)
+				case *ssa.Call:
+					call = ev
+				}
+				if call != nil {
+					if f := call.Call.StaticCallee(); f != nil && m.onSent[f] {
+						if x.Op == token.EQL {
+							return onTrue
+						}
+						return !onTrue
 					}
 				}
 			}
@@ -797,9 +1085,70 @@ func (m *parserModel) spec() loopSpec {
 				return false
 			}
 			t, f := m.classify(iff.Cond, false)
-			return (k == 0 && t) || (k == 1 && f)
+			if (k == 0 && t) || (k == 1 && f) {
+				return true
+			}
+			// tokenizer: an edge that certifies "the callee consumed input" also certifies that the
+			// cursor was not at the end when the iteration started (input is only consumed below len(input))
+			return m.kind == "tokenizer" && m.progressEdge(b, k)
 		},
 	}
+}
+
+// newTokenizerModel builds the byte-cursor model for pkg/sql/tokenizer.
+func newTokenizerModel(p *core.Prog) (*parserModel, string) {
+	pk := p.Pkg("pkg/sql/tokenizer")
+	if pk == nil {
+		return nil, "package pkg/sql/tokenizer"
+	}
+	tobj := pk.Types.Scope().Lookup("Tokenizer")
+	pobj := pk.Types.Scope().Lookup("Position")
+	if tobj == nil || pobj == nil {
+		return nil, "types Tokenizer / Position"
+	}
+	m := &parserModel{p: p, kind: "tokenizer", T: tobj.Type().(*types.Named), posT: pobj.Type().(*types.Named), always: map[*ssa.Function]bool{}, onOK: map[*ssa.Function]bool{}, onTrue: map[*ssa.Function]bool{}, onSent: map[*ssa.Function]bool{}, onOKne: map[*ssa.Function]bool{}, predMemo: map[*ssa.Function]int{}, paramEq: map[*ssa.Function]bool{}}
+	st := core.StructOf(m.T)
+	for _, f := range []string{"input", "pos"} {
+		found := false
+		for i := 0; i < st.NumFields(); i++ {
+			if st.Field(i).Name() == f {
+				found = true
+			}
+		}
+		if !found {
+			return nil, "field Tokenizer." + f
+		}
+	}
+	if adv := p.Method("pkg/sql/tokenizer", "Position", "AdvanceRune"); adv == nil {
+		return nil, "method (*Position).AdvanceRune"
+	} else {
+		// shape: Index is increased by a value forced to be >= 1
+		ok := false
+		for _, b := range adv.Blocks {
+			for _, in := range b.Instrs {
+				if st, isSt := in.(*ssa.Store); isSt {
+					if fa, isFa := st.Addr.(*ssa.FieldAddr); isFa && core.FieldName(fa.X.Type(), fa.Field) == "Index" {
+						if bo, isBo := st.Val.(*ssa.BinOp); isBo && bo.Op == token.ADD {
+							if ph, isPhi := bo.Y.(*ssa.Phi); isPhi {
+								// size == 0 ? 1 : size
+								for _, e := range ph.Edges {
+									if k, isC := core.ConstInt(e); isC && k >= 1 {
+										ok = true
+									}
+								}
+							}
+						}
+					}
+				}
+			}
+		}
+		if !ok {
+			return nil, "AdvanceRune no longer forces a step of at least one byte (size == 0 fallback)"
+		}
+	}
+	m.fns = p.SrcFuncs("pkg/sql/tokenizer")
+	m.solve()
+	return m, ""
 }
 
 // solve computes the must-advance summaries as a greatest fixed point.
@@ -820,6 +1169,10 @@ func (m *parserModel) solve() {
 				m.onTrue[fn] = true
 			}
 		}
+		if m.kind == "tokenizer" && m.onOK[fn] {
+			m.onSent[fn] = true
+			m.onOKne[fn] = true
+		}
 	}
 	for changed := true; changed; {
 		changed = false
@@ -836,28 +1189,55 @@ func (m *parserModel) solve() {
 				m.onTrue[fn] = false
 				changed = true
 			}
+			if m.onSent[fn] && !m.mustAdvance(fn, "sentinel") {
+				m.onSent[fn] = false
+				changed = true
+			}
+			if m.onOKne[fn] && !m.mustAdvance(fn, "ok-ne") {
+				m.onOKne[fn] = false
+				changed = true
+			}
 		}
 	}
 }
 
 // mustAdvance: no path from entry to a relevant return avoids progress.
 func (m *parserModel) mustAdvance(fn *ssa.Function, mode string) bool {
-	seen := map[*ssa.BasicBlock]bool{}
-	work := []*ssa.BasicBlock{fn.Blocks[0]}
+	ne := mode == "ok-ne"
+	if ne {
+		mode = "ok"
+		m.assumeEntry = true
+		defer func() { m.assumeEntry = false }()
+	}
+	type state struct {
+		b     *ssa.BasicBlock
+		clean bool
+	}
+	seen := map[state]bool{}
+	work := []state{{fn.Blocks[0], true}}
 	for len(work) > 0 {
-		b := work[len(work)-1]
+		st := work[len(work)-1]
 		work = work[:len(work)-1]
-		if seen[b] {
+		if seen[st] {
 			continue
 		}
-		seen[b] = true
+		seen[st] = true
+		b := st.b
 		if m.progressBlock(b) {
 			continue
 		}
+		clean := st.clean
+		if ne && clean {
+			for _, in := range b.Instrs {
+				if m.mayMoveCursor(in) {
+					clean = false
+				}
+			}
+		}
 		if ret, ok := b.Instrs[len(b.Instrs)-1].(*ssa.Return); ok {
-			if m.relevantReturn(fn, ret, mode) {
+			if m.relevantReturn(fn, ret, mode) && !(ne && m.tailNE(ret)) {
 				if os.Getenv("GOSQLX_SA_DEBUG") == fn.Name() {
-					fmt.Fprintf(os.Stderr, "DEBUG %s mode=%s: return at %s reachable without progress (block %d)\n", fn.Name(), mode, m.p.Pos(ret.Pos()), b.Index)
+					fmt.Fprintf(os.Stderr, "DEBUG %s mode=%s ne=%v: return at %s reachable without progress (block %d)\n", fn.Name(), mode, ne, m.p.Pos(ret.Pos()), b.Index)
 				}
 				return false
 			}
@@ -866,10 +1246,139 @@ func (m *parserModel) mustAdvance(fn *ssa.Function, mode string) bool {
 			if m.progressEdge(b, k) {
 				continue
 			}
-			work = append(work, s)
+			if ne && st.clean && len(b.Succs) == 2 {
+				// the cursor has not moved since entry and entry was below len(input): at-end edges are infeasible
+				if iff, ok := b.Instrs[len(b.Instrs)-1].(*ssa.If); ok {
+					t, f := m.classify(iff.Cond, false)
+					if (k == 1 && t) || (k == 0 && f) {
+						continue
+					}
+				}
+			}
+			work = append(work, state{s, clean})
 		}
 	}
 	return true
+}
+
+// Audited precondition summaries: functions that advance on success only when a
+// precondition holds at entry; each call site must establish it.
+//
+//	readNumber: "the next rune is an ASCII digit" (its first loop consumes digits and may consume none).
+//
+// A call site establishes it when it is control-dependent on `r >= '0'` and `r <= '9'` for the rune
+// decoded at the cursor, or when the caller has already consumed input before the call.
+var auditedPre = map[string]string{
+	"readNumber": "next rune is a digit, or the caller already advanced",
+}
+
+func (m *parserModel) auditedSite(f *ssa.Function, call *ssa.Call) bool {
+	if m.kind != "tokenizer" || f == nil || auditedPre[f.Name()] == "" || !m.isParserFn(f) {
+		return false
+	}
+	b := call.Block()
+	if os.Getenv("GOSQLX_SA_DEBUG") != "" {
+		for _, cd := range core.ControlDeps(b) {
+			fmt.Fprintf(os.Stderr, "DEBUG auditedSite %s in %s: dep %s succ=%d\n", f.Name(), b.Parent().Name(), cd.If.Cond.String(), cd.Succ)
+		}
+	}
+	// (a) digit guard
+	ge, le := false, false
+	var conj []*ssa.BinOp
+	for _, cd := range core.ControlDeps(b) {
+		if cd.Succ == 0 {
+			conj = append(conj, condConjuncts(cd.If.Cond, 0)...)
+		}
+	}
+	for _, bo := range conj {
+		ex, ok := bo.X.(*ssa.Extract)
+		if !ok || ex.Index != 0 {
+			continue
+		}
+		c, ok := ex.Tuple.(*ssa.Call)
+		if !ok || c.Call.StaticCallee() == nil || !strings.HasPrefix(c.Call.StaticCallee().Name(), "DecodeRune") {
+			continue
+		}
+		k, _ := core.ConstInt(bo.Y)
+		if bo.Op == token.GEQ && k == '0' {
+			ge = true
+		}
+		if bo.Op == token.LEQ && k == '9' {
+			le = true
+		}
+	}
+	if ge && le {
+		return true
+	}
+	// (b) the caller consumed input on every path to the call
+	for _, d := range b.Parent().Blocks {
+		if d != b && d.Dominates(b) {
+			for _, in := range d.Instrs {
+				if m.tzAtom(in) {
+					return true
+				}
+			}
+		}
+	}
+	for _, in := range b.Instrs {
+		if in == ssa.Instruction(call) {
+			break
+		}
+		if m.tzAtom(in) {
+			return true
+		}
+	}
+	return false
+}
+
+// condConjuncts lists comparisons that certainly hold when v is true; it looks
+// through the phi form of `a && b`.
+func condConjuncts(v ssa.Value, depth int) []*ssa.BinOp {
+	if depth > 4 {
+		return nil
+	}
+	switch x := v.(type) {
+	case *ssa.BinOp:
+		return []*ssa.BinOp{x}
+	case *ssa.Phi:
+		var out []*ssa.BinOp
+		n := 0
+		for i, e := range x.Edges {
+			if c, ok := e.(*ssa.Const); ok && c.Value != nil && c.Value.String() == "false" {
+				continue
+			}
+			n++
+			out = append(out, condConjuncts(e, depth+1)...)
+			p := x.Block().Preds[i]
+			if len(p.Preds) == 1 {
+				q := p.Preds[0]
+				if iff, ok := q.Instrs[len(q.Instrs)-1].(*ssa.If); ok && len(q.Succs) == 2 && q.Succs[0] == p && q.Succs[1] != p {
+					out = append(out, condConjuncts(iff.Cond, depth+1)...)
+				}
+			}
+		}
+		if n == 1 {
+			return out
+		}
+	}
+	return nil
+}
+
+// tailNE: return f(...) of a callee that advances on success when not at end, called at a non-end site.
+func (m *parserModel) tailNE(ret *ssa.Return) bool {
+	e := retOperand(ret, len(ret.Results)-1)
+	var call *ssa.Call
+	switch ev := e.(type) {
+	case *ssa.Extract:
+		call, _ = ev.Tuple.(*ssa.Call)
+	case *ssa.Call:
+		call = ev
+	}
+	if call == nil {
+		return false
+	}
+	f := call.Call.StaticCallee()
+	return f != nil && ((m.onOKne[f] && m.siteNonEnd(call)) || m.auditedSite(f, call))
 }
 
 // retOperand resolves the i-th result of ret through the result cells go/ssa
@@ -917,7 +1426,7 @@ func (m *parserModel) relevantReturn(fn *ssa.Function, ret *ssa.Return, mode str
 			call = ev
 		}
 		if call != nil {
-			if f := call.Call.StaticCallee(); f != nil && (m.onOK[f] || f == fn) {
+			if f := call.Call.StaticCallee(); f != nil && (m.onOK[f] || f == fn || m.auditedSite(f, call)) {
 				return false
 			}
 		}
@@ -926,6 +1435,38 @@ func (m *parserModel) relevantReturn(fn *ssa.Function, ret *ssa.Return, mode str
 		}
 		// a value known non-nil: block dominated by the true edge of `e != nil`
 		if nonNilHere(e, ret.Block()) {
+			return false
+		}
+		return true
+	case "sentinel":
+		e := retOperand(ret, len(ret.Results)-1)
+		if core.IsNilConst(e) || m.nonNilErr(e, 0) && !isGlobalLoad(e) {
+			if _, isMk := e.(*ssa.MakeInterface); isMk || core.IsNilConst(e) {
+				return false
+			}
+		}
+		if isGlobalLoad(e) {
+			return true
+		}
+		var call *ssa.Call
+		switch ev := e.(type) {
+		case *ssa.Extract:
+			call, _ = ev.Tuple.(*ssa.Call)
+		case *ssa.Call:
+			call = ev
+		}
+		if call != nil {
+			if f := call.Call.StaticCallee(); f != nil {
+				if m.onSent[f] || f == fn {
+					return false
+				}
+				if !m.isParserFn(f) {
+					return false // foreign/builder calls never yield the sentinel
+				}
+			}
+			return true
+		}
+		if _, isMk := e.(*ssa.MakeInterface); isMk {
 			return false
 		}
 		return true
